@@ -1200,6 +1200,21 @@ def option_grid_cases():
                 out.append({"kind": "bind", "params": params, "ctx": ctx, "wrapper": "sync", "eager": False,
                             "options": dict(extra, data_first_search=dfs, case_insensitive=True), "retval": {"v": 1},
                             "args": [enc(a) for a in args], "kwargs": [[k, enc(v)] for k, v in kwargs]})
+    # a positional argument repeated as a keyword (own name / alias), with and without **kwargs, every search setting
+    A0 = {"name": "a", "kind": "pk"}
+    KW = {"name": "kw", "kind": "vk"}
+    dup = [([A0], [1], [["a", 2]]), ([A0, KW], [1], [["a", 2]]), ([A0, KW], [1], [["a", 2], ["x", 3]]),
+           ([{"name": "a", "kind": "pk", "ann": "int", "alias": "A1"}, {"name": "c", "kind": "ko", "default": {"v": 0}}], [1], [["A1", 2]]),
+           ([{"name": "a", "kind": "pk", "ann": "int", "alias": "A1"}, KW], ["1"], [["a", "2"]]),
+           ([{"name": "p", "kind": "po"}, {"name": "b", "kind": "pk", "default": {"v": 0}}, KW], [1, 2], [["b", 3]]),
+           ([{"name": "p", "kind": "po"}, {"name": "b", "kind": "pk", "default": {"v": 0}}], [1, 2], [["b", 3]]),
+           ([A0, {"name": "b", "kind": "pk", "ann": "int", "default": {"v": 0}, "ci": True}, KW], [1, 2], [["B", 3]])]
+    for params, args, kwargs in dup:
+        for dfs in (False, True, None):
+            for ctx in ("func", "inst", "static"):
+                out.append({"kind": "bind", "params": params, "ctx": ctx, "wrapper": "sync", "eager": False,
+                            "options": {"data_first_search": dfs}, "retval": {"v": 1},
+                            "args": [enc(a) for a in args], "kwargs": [[k, enc(v)] for k, v in kwargs]})
     for params in sigs:
         has_vk = any(p["kind"] == "vk" for p in params)
         has_vp = any(p["kind"] == "vp" for p in params)
@@ -1348,7 +1363,27 @@ def verdict(case, out, ex, nobind_err=None):
     return None
 
 
+def dup_positional_keyword(case):
+    """names of (non-private) positional-or-keyword parameters that the call binds positionally AND gives again under
+    their own name — Python: TypeError "got multiple values for argument".  (A duplicate under an alias / another letter
+    case is a different keyword for Python itself: with **kwargs the undecorated function binds it there; the property
+    is silent on it.)"""
+    pos = [p for p in case["params"] if p["kind"] in ("po", "pk")]
+    keys = {k for k, _ in case["kwargs"]}
+    out = []
+    for i, p in enumerate(pos[:len(case["args"])]):
+        if p["kind"] == "pk" and not is_private(p["name"]) and p["name"] in keys and not (i == 0 and guessed_self(case)):
+            out.append(p["name"])
+    return out
+
+
 def spec_bind(case, out):
+    dups = dup_positional_keyword(case)
+    if dups and "decl_err" not in out and not case.get("wrong_self") and expected(case)[0] == "nobind":
+        o = fold(case, out)
+        if o["body"]:
+            return (f"parameter {dups[0]!r} is bound positionally and given again by keyword (Python: TypeError, got "
+                    f"multiple values) but the body ran with {o['binding']}")
     if case.get("wrong_self") and case.get("ctx") == "klass" and "decl_err" not in out:
         # a method of a class decorated as a whole, called with a first argument that is not an instance: that
         # parameter (implicitly typed by the class) fails — ParseError, the body does not run
@@ -1359,11 +1394,20 @@ def spec_bind(case, out):
     return verdict(case, out, expected(case))
 
 
-def classify_bind(case, out, agree=True):
+def classify_bind(case, out, agree=True, dfs=False):
     """known-finding id of a spec violation, by MECHANISM: the declaration/call has the shape of the finding and the
     implementation did exactly what the model (which mirrors the documented design) predicts — whatever error kind or
     binding that is under the case's Options.  A disagreement between model and implementation is never classified."""
     if not agree:
+        return None
+    if dup_positional_keyword(case) and out.get("body"):
+        # the keyword of a parameter already bound positionally: data-first skips it as "already parsed" (with or without
+        # **kwargs); field-first hands it to **kwargs (raw TypeError, as Python) but without **kwargs ignores it like any
+        # key it cannot place
+        if dfs:
+            return "dup-positional-keyword-data-first"
+        if not any(p["kind"] == "vk" for p in case["params"]):
+            return "dup-positional-keyword-no-kwargs"
         return None
     if guessed_self(case) and not case["args"]:
         # the bare first parameter was taken for `self`: it is not a field, so a different-case spelling of its name does
@@ -1668,9 +1712,11 @@ class C08(Check):
             return None
         last = getattr(self, "_last", None)
         agree = True
+        dfs = False
         if last is not None and last[0] is case:
             agree = self.compare(case, io, last[1]) is None
-        return classify_bind(case, io, agree)
+            dfs = bool(isinstance(last[1], dict) and last[1].get("dfs"))
+        return classify_bind(case, io, agree, dfs)
 
     def key(self, case, io):
         ex = expected(case) if case["kind"] == "bind" else None
